@@ -47,7 +47,7 @@ PLAN = {
                      (MC, "Beh_Triggers_2.cfg", fam.convert, 0, 0), (MC, "Beh_Triggers_3.cfg", fam.convert, 8000, 3000)],
     },
     "core": fam.is_core,
-    "core_cap": 16,
+    "core_cap": 400,
     "keep": keep,
 }
 
